@@ -35,6 +35,9 @@ OS_FLAGS = {"mean": 0, "median": 1, "student": 2, "laplace": 3, "tukey": 4, "sig
             "wilcoxon_mfx": 16, "elr_mfx": 17, "mean_gauss_mfx": 19}
 TS_FLAGS = {"student": 2, "wilcoxon": 6, "student_mfx": 12}   # values of the C header (the .pyx enum values are ignored by Cython)
 OS_RFX = ["mean", "median", "student", "laplace", "sign", "wilcoxon"]
+# cluster / region p-values of calibrate(): exercised in thorough only until
+# proposed_fixes/C17-calibrate-cluster-region-pvalues.patch is applied (then set True)
+CLUSTERS_IN_QUICK = True
 OS_MFX = ["mean_gauss_mfx", "student_mfx", "mean_mfx", "sign_mfx", "wilcoxon_mfx", "elr_mfx", "median_mfx"]
 
 
@@ -485,6 +488,40 @@ class C17(PropertyCheck):
                           "ndraws": rng.choice([4, 8, 16, 50]), "shift": rng.choice([0.0, 1.0, 3.0]),
                           "nperms": rng.choice([None, None, 3, 1000]),
                           "two": rng.random() < 0.35, "n2": rng.choice([2, 3])})
+        # ---- optional / rarely used arguments of every named routine --------------------------
+        n_va, n_ms, n_ax, n_po = (150, 120, 90, 40) if q else (2500, 2000, 1500, 500)
+        for _ in range(n_va):
+            n = rng.choice([2, 3, 4, 5, 6, 8, 12, 20, 40]); p = rng.choice([1, 1, 2, 3])
+            cases.append({"kind": "varatio", "n": n, "p": p, "seed": rng.randrange(10 ** 6),
+                          "df": rng.choice(["none", "ones", "const", "const", "rand", "rand", "rand", "unit-sum"]),
+                          "niter": rng.choice([0, 1, 2, 3, 3, 10]), "default_niter": rng.random() < 0.15,
+                          "scalar_sd": rng.random() < 0.15})
+        for _ in range(n_ms):
+            n = rng.choice([4, 5, 6, 8, 12]); p = rng.choice([1, 2, 3])
+            cases.append({"kind": "mfxstat", "n": n, "p": p, "seed": rng.randrange(10 ** 6),
+                          "design": rng.choice(["ones", "group", "group", "group+cov"]),
+                          "column": rng.choice([0, 1, 1, 2]), "niter": rng.choice([0, 1, 2, 5, 8]),
+                          "default_niter": rng.random() < 0.15})
+        for _ in range(n_ax):
+            n = rng.choice([2, 3, 4, 5, 8])
+            shape = rng.choice([(n,), (n, 3), (2, n), (2, n, 3), (n, 1, 2)])
+            axis = [i for i, s_ in enumerate(shape) if s_ == n][0]
+            cases.append({"kind": "pymfxaxis", "shape": list(shape), "axis": axis, "seed": rng.randrange(10 ** 6),
+                          "stat": rng.choice(OS_MFX), "base": rng.choice([0.0, 0.0, 1.0, -0.5]),
+                          "niter": rng.choice([0, 1, 2, 5]), "default_niter": rng.random() < 0.2,
+                          "magics": [rng.randrange(1 << n) for _ in range(rng.choice([1, 2]))],
+                          "constraint": rng.choice([0, 0, 1]), "two": rng.random() < 0.3, "n2": rng.choice([2, 3, 4])})
+        for _ in range(n_po):
+            n = rng.choice([2, 3, 3, 4, 5])
+            mfx = rng.random() < 0.4
+            cases.append({"kind": "ptopt", "n": n, "p": rng.choice([2, 3, 4, 5]), "seed": rng.randrange(10 ** 6),
+                          "stat": rng.choice(["mean_gauss_mfx", "sign_mfx", "mean_mfx", "student_mfx"]) if mfx
+                          else rng.choice(["student", "mean", "wilcoxon", "sign", "median", "laplace"]),
+                          "mfx": mfx, "base": rng.choice([0.0, 0.0, 0.5, -1.0]), "axis": rng.choice([0, 1]),
+                          "niter": rng.choice([0, 1, 3]), "ndraws": rng.choice([8, 16, 50]),
+                          "shift": rng.choice([0.0, 1.0, 3.0]), "nperms": rng.choice([None, None, 5]),
+                          "two": rng.random() < 0.35, "n2": rng.choice([2, 3]),
+                          "clusters": (CLUSTERS_IN_QUICK or not q) and rng.random() < 0.5})
         return cases
 
     # ------------------------------------------------------------------
@@ -1052,6 +1089,328 @@ class C17(PropertyCheck):
                 "tags": ["ptest", "pt-two" if c["two"] else "pt-one",
                          "exhaustive" if (c["nperms"] is None or c["nperms"] >= nmax) else "sampled"],
                 "mutated": mut}
+
+
+    # ---- optional arguments ----------------------------------------------
+    def _varatio(self, c):
+        from nipy.algorithms.statistics import onesample as aos
+        n, p = c["n"], c["p"]
+        rs = np.random.RandomState(c["seed"])
+        Y = rs.randint(-16, 17, size=(n, p)) / 4.0
+        if np.any(Y.std(0) == 0):
+            Y[0] += 1.0
+        sd = rs.choice([0.5, 1.0, 2.0, 0.25, 4.0, 1.5], size=(n, p))
+        if c["scalar_sd"]:
+            sd = np.array(float(sd[0, 0]))
+        mode = c["df"]
+        df = {"none": None, "ones": np.ones(n), "const": np.full(n, float(rs.choice([2, 30, 100]))),
+              "rand": rs.randint(1, 120, size=n).astype(float),
+              "unit-sum": np.full(n, 1.0 / 8)}[mode]
+        kw = {} if c["default_niter"] else {"niter": c["niter"]}
+        niter = 10 if c["default_niter"] else c["niter"]
+        one_d = p == 1 and c["seed"] % 2 == 0
+        Yin = Y[:, 0].copy() if one_d else Y.copy()
+        sdin = sd.copy() if sd.ndim == 0 else (sd[:, 0].copy() if one_d else sd.copy())
+        dfin = None if df is None else df.copy()
+        lines, impl, fail = [], [], None
+        try:
+            res = aos.estimate_varatio(Yin, sdin, dfin, **kw)
+        except Exception as e:   # noqa
+            return {"lines": [], "impl": [], "nontrivial": True, "tags": ["varatio", "raised"],
+                    "oracle": f"estimate_varatio(n={n}, p={p}, df={mode}, niter={niter}) raised {type(e).__name__}: {e}"}
+        fixed = np.reshape(res["fixed"], (-1,)); ratio = np.reshape(res["ratio"], (-1,))
+        random = np.reshape(res["random"], (-1,))
+        sdf = np.broadcast_to(sd, (n, p))
+        w = np.ones(n) if df is None else df
+        ref = aos.estimate_varatio(Y.copy(), sdf.copy(), None, **kw)
+        ref_random = np.reshape(ref["random"], (-1,))
+        for j in range(p):
+            fw = [F(float(v)) for v in w]; fs = [F(float(v)) ** 2 for v in sdf[:, j]]
+            want = sum(a * b for a, b in zip(fw, fs)) / sum(fw)
+            if not close(fixed[j], float(want), 1e-10, 1e-12):
+                fail = (f"estimate_varatio(df={w.tolist() if df is not None else None}): 'fixed'[{j}]={fixed[j]} but the "
+                        f"df-weighted mean of sd^2={[float(v) for v in fs]} is {float(want)}")
+                break
+            if math.isfinite(random[j]) and not close(ratio[j], random[j] / float(want), 1e-9, 1e-12):
+                fail = (f"estimate_varatio(df={mode}, niter={niter}): 'ratio'[{j}]={ratio[j]} is not "
+                        f"'random'/'fixed' = {random[j] / float(want)}")
+                break
+            if not _same(random[j], ref_random[j]):
+                fail = (f"estimate_varatio: 'random'[{j}]={random[j]} with df={mode} differs from {ref_random[j]} with "
+                        f"the default df (the random-effects variance does not depend on df)")
+                break
+            one = aos.estimate_varatio(np.ascontiguousarray(Y[:, j]), np.ascontiguousarray(sdf[:, j]), None, **kw)
+            if not _same(float(np.ravel(one["random"])[0]), random[j]):
+                fail = f"estimate_varatio does not treat column {j} independently: {random[j]} vs {one['random']} alone"
+                break
+            if niter <= 3 and n <= 8 and j < 2:
+                S = 1.0 / (1.0 / sdf[:, j] ** 2)
+                lines.append(f"varatio {niter} {fr(0.99)} {fr(float(S.min()))} {plist(Y[:, j].tolist())} "
+                             f"{plist(sdf[:, j].tolist())} {plist(w.tolist())}")
+                impl.append(("rats", [float(fixed[j]), float(ratio[j]), float(random[j])]))
+        return {"lines": lines, "impl": impl, "oracle": fail, "nontrivial": True,
+                "tags": ["varatio", "df=" + mode, f"va-niter={'default' if c['default_niter'] else niter}"]}
+
+    def _mfxstat(self, c):
+        from nipy.algorithms.statistics import mixed_effects_stat as mes
+        n, p = c["n"], c["p"]
+        rs = np.random.RandomState(c["seed"])
+        Y = rs.randint(-16, 17, size=(n, p)) / 4.0
+        V1 = rs.choice([0.0, 0.25, 0.5, 1.0, 2.0, 4.0], size=(n, p))
+        g = np.array([0] * (n // 2) + [1] * (n - n // 2))
+        Y[g == 1] += rs.choice([0.0, 1.0, 3.0])
+        if c["design"] == "ones":
+            X = np.ones((n, 1))
+        elif c["design"] == "group":
+            X = np.vstack((np.ones(n), g)).T
+        else:
+            X = np.vstack((np.ones(n), g, np.arange(n) - (n - 1) / 2.0)).T
+        col = min(c["column"], X.shape[1] - 1)
+        kw = {} if c["default_niter"] else {"n_iter": c["niter"]}
+        niter = 5 if c["default_niter"] else c["niter"]
+        if p == 1:
+            Yin, Vin = Y[:, 0].copy(), V1[:, 0].copy()     # 1-D input (check_arrays adds the test axis)
+        else:
+            Yin, Vin = Y.copy(), V1.copy()
+
+        def em_ref(Xd):
+            P = np.linalg.pinv(Xd)
+            beta = P @ Y; Yh = Xd @ beta; V2 = np.mean((Y - Yh) ** 2, 0)
+            for _ in range(niter):
+                prec = 1.0 / (V2 + V1)
+                Y_ = prec * (V2 * Y + V1 * Yh)
+                cvar = V1 * V2 * prec
+                beta = P @ Y_; Yh = Xd @ beta
+                V2 = np.mean((Y_ - Yh) ** 2, 0) + cvar.mean(0)
+            tv = V2 + V1
+            ll = -0.5 * (np.sum((Y - Yh) ** 2 / tv, 0) + np.sum(np.log(tv), 0) + np.log(2 * np.pi) * n)
+            return beta, V2, ll
+        fail = None
+        with np.errstate(all="ignore"):
+            mask = 1 - np.eye(X.shape[1])[col]
+            b1, v1_, ll1 = em_ref(X)
+            _, v0_, ll0 = em_ref(X * mask)
+            f_ref = np.maximum(0, 2 * (ll1 - ll0))
+            t_ref = np.sqrt(f_ref) * np.sign(b1[col])
+            t = np.ravel(mes.mfx_stat(Yin, Vin, X, col, return_t=True, **kw)[0])
+            f = np.ravel(mes.mfx_stat(Yin, Vin, X, col, return_t=False, return_f=True, **kw)[0])
+            eff = np.ravel(mes.mfx_stat(Yin, Vin, X, col, return_t=False, return_effect=True, **kw)[0])
+            var = np.ravel(mes.mfx_stat(Yin, Vin, X, col, return_t=False, return_var=True, **kw)[0])
+        ok = (v1_ > 1e-8) & (v0_ > 1e-8) & np.isfinite(f_ref)
+        for j in range(p):
+            if not ok[j]:
+                continue
+            if not close(eff[j], b1[col, j], 1e-8, 1e-9):
+                fail = f"mfx_stat(return_effect) = {eff[j]} but the EM estimate of beta[{col}] after {niter} iterations is {b1[col, j]}"
+            elif not close(var[j], v1_[j], 1e-8, 1e-9):
+                fail = f"mfx_stat(return_var) = {var[j]} but the EM group variance after {niter} iterations is {v1_[j]}"
+            elif not close(f[j], f_ref[j], 1e-6, 1e-7):
+                fail = f"mfx_stat(return_f) = {f[j]} but 2*(loglik_full - loglik_null) after {niter} EM iterations is {f_ref[j]}"
+            elif not close(t[j], t_ref[j], 1e-6, 1e-7):
+                fail = f"mfx_stat(return_t) = {t[j]} but sign(beta)*sqrt(F) = {t_ref[j]}"
+            if fail:
+                fail += f" (design={c['design']}, column={col}, Y={Y[:, j].tolist()}, V1={V1[:, j].tolist()})"
+                break
+        if fail is None and c["design"] == "group" and col == 1 and np.all(ok):
+            with np.errstate(all="ignore"):
+                tt = np.ravel(mes.two_sample_ttest(Yin, Vin, g, **kw)); ff = np.ravel(mes.two_sample_ftest(Yin, Vin, g, **kw))
+            if not (_arr_same(tt, t) and _arr_same(ff, f)):
+                fail = f"two_sample_ttest/ftest differ from mfx_stat on the [1, group] design: {tt} {ff} vs {t} {f}"
+        if fail is None and c["design"] == "ones" and np.all(ok):
+            with np.errstate(all="ignore"):
+                tt = np.ravel(mes.one_sample_ttest(Yin, Vin, **kw)); ff = np.ravel(mes.one_sample_ftest(Yin, Vin, **kw))
+            if not (_arr_same(tt, t) and _arr_same(ff, f)):
+                fail = f"one_sample_ttest/ftest differ from mfx_stat on the constant design: {tt} {ff} vs {t} {f}"
+        return {"lines": [], "impl": [], "oracle": fail, "nontrivial": True,
+                "tags": ["mfxstat", "design=" + c["design"], f"ms-niter={'default' if c['default_niter'] else niter}"]}
+
+    def _pymfxaxis(self, c):
+        from nipy.labs.group import onesample as los
+        from nipy.labs.group import twosample as lts
+        rs = np.random.RandomState(c["seed"])
+        shape, axis, stat, base = tuple(c["shape"]), c["axis"], c["stat"], c["base"]
+        n = shape[axis]
+        Y = rs.randint(-16, 17, size=shape) / 4.0
+        V = rs.choice([0.0, 0.25, 0.5, 1.0, 2.0, 4.0], size=shape)
+        magics = np.array(c["magics"], dtype=float)
+        dflt = c["default_niter"]
+        niter = 5 if dflt else c["niter"]
+        lines, impl, fail = [], [], None
+        Ym = np.moveaxis(Y, axis, 0).reshape(n, -1); Vm = np.moveaxis(V, axis, 0).reshape(n, -1)
+        if not c["two"]:
+            T = los.stat_mfx(Y, V, stat, base, axis, magics) if dflt else los.stat_mfx(Y, V, stat, base, axis, magics, niter)
+            want_shape = list(shape); want_shape[axis] = len(magics)
+            if list(T.shape) != want_shape:
+                fail = f"onesample.stat_mfx output shape {T.shape}, expected {want_shape}"
+            Tm = np.moveaxis(T, axis, 0).reshape(len(magics), -1) if fail is None else None
+            for j in range(Ym.shape[1] if fail is None else 0):
+                y = np.ascontiguousarray(Ym[:, j]); v = np.ascontiguousarray(Vm[:, j])
+                one = los.stat_mfx(y, v, stat, base, 0, magics, niter)
+                if not _arr_same(one, Tm[:, j]):
+                    fail = (f"onesample.stat_mfx({stat}, axis={axis}, niter={'default' if dflt else niter}) on shape {shape}: "
+                            f"slice {j} gives {Tm[:, j].tolist()} but the same vectors alone with niter={niter} give {one.tolist()}")
+                    break
+                for k, m in enumerate(c["magics"]):
+                    ref = los.stat_mfx(np.array(flip(y.tolist(), m)), v, stat, base, 0, None, niter)
+                    if not _arr_same(ref, Tm[k:k + 1, j]):
+                        fail = (f"onesample.stat_mfx({stat}, Magics=[{m}]) = {Tm[k, j]} differs from the statistic of the "
+                                f"sign-flipped data with unchanged variances {ref.tolist()}")
+                        break
+                    # statistics whose C code is identical in the installed extension and the tree under test
+                    if stat in ("mean_gauss_mfx", "mean_mfx", "sign_mfx") and fail is None:
+                        cc = c_osmfx(stat, np.array(flip(y.tolist(), m)), v, base, niter)
+                        if not _same(cc, Tm[k, j], 1e-8):
+                            fail = (f"onesample.stat_mfx({stat}, base={base}, niter={niter}, Magics=[{m}]) = {Tm[k, j]} but "
+                                    f"lib/fff gives {cc} (y={y.tolist()}, v={v.tolist()})")
+                            break
+                if fail:
+                    break
+            # Gaussian pdf fit: (mu, s2) along the axis, with / without the zero-mean constraint
+            if fail is None:
+                MU, S2 = los.pdf_fit_gmfx(Y, V, axis, niter, c["constraint"], base)
+                MUm = np.moveaxis(MU, axis, 0).reshape(1, -1); S2m = np.moveaxis(S2, axis, 0).reshape(1, -1)
+                for j in range(Ym.shape[1]):
+                    y = np.ascontiguousarray(Ym[:, j]); v = np.ascontiguousarray(Vm[:, j])
+                    mu, s2 = c_gmfx_fit(y, v, niter, c["constraint"])
+                    if not (_same(mu, MUm[0, j], 1e-8) and _same(s2, S2m[0, j], 1e-8)):
+                        fail = (f"pdf_fit_gmfx(axis={axis}, niter={niter}, constraint={c['constraint']}) slice {j}: "
+                                f"({MUm[0, j]}, {S2m[0, j]}) but lib/fff on the slice gives ({mu}, {s2})")
+                        break
+                    if niter <= 3 and n <= 8 and j < 2:
+                        lines.append(f"gmfx {niter} {c['constraint']} {plist(y.tolist())} {plist(v.tolist())}")
+                        impl.append(("rats", [float(MUm[0, j]), float(S2m[0, j])]))
+            if fail is None and stat in ("mean_mfx", "sign_mfx", "wilcoxon_mfx", "median_mfx", "elr_mfx"):
+                W, Z = los.pdf_fit_mfx(Y, V, axis, niter, 0, base)
+                Wm = np.moveaxis(W, axis, 0).reshape(n, -1)
+                if W.shape != shape or Z.shape != shape or not np.allclose(Wm.sum(0), 1.0, atol=1e-9):
+                    fail = f"pdf_fit_mfx(axis={axis}, niter={niter}): weights along the axis sum to {Wm.sum(0).tolist()}, not 1"
+        else:
+            n2 = c["n2"]
+            sh2 = list(shape); sh2[axis] = n2
+            Y2 = rs.randint(-16, 17, size=tuple(sh2)) / 4.0
+            V2 = rs.choice([0.0, 0.25, 0.5, 1.0, 2.0], size=tuple(sh2))
+            tot = math.comb(n + n2, n)
+            ms = [m % tot for m in c["magics"]]
+            mg = np.array(ms, dtype=float)
+            T = lts.stat_mfx(Y, V, Y2, V2, "student_mfx", axis, mg) if dflt else \
+                lts.stat_mfx(Y, V, Y2, V2, "student_mfx", axis, mg, niter)
+            Y2m = np.moveaxis(Y2, axis, 0).reshape(n2, -1); V2m = np.moveaxis(V2, axis, 0).reshape(n2, -1)
+            Tm = np.moveaxis(T, axis, 0).reshape(len(ms), -1)
+            for j in range(Ym.shape[1]):
+                a = np.ascontiguousarray(Ym[:, j]); va = np.ascontiguousarray(Vm[:, j])
+                b = np.ascontiguousarray(Y2m[:, j]); vb = np.ascontiguousarray(V2m[:, j])
+                one = lts.stat_mfx(a, va, b, vb, "student_mfx", 0, mg, niter)
+                if not _arr_same(one, Tm[:, j]):
+                    fail = (f"twosample.stat_mfx(axis={axis}, niter={'default' if dflt else niter}) on shape {shape}: slice {j} "
+                            f"gives {Tm[:, j].tolist()} but the same vectors alone with niter={niter} give {one.tolist()}")
+                    break
+                for k, m in enumerate(ms):
+                    px, pv = c_tsapply(a, b, m, va, vb)
+                    cc = c_tsmfx(px, pv, n, niter)
+                    if math.isfinite(cc) and not _same(cc, Tm[k, j], 1e-7):
+                        fail = (f"twosample.stat_mfx(niter={niter}, Magics=[{m}]) = {Tm[k, j]} but lib/fff on the relabelled "
+                                f"sample gives {cc}")
+                        break
+                if fail:
+                    break
+        return {"lines": lines, "impl": impl, "oracle": fail, "nontrivial": True,
+                "tags": ["pymfxaxis", "pm-two" if c["two"] else "pm-" + stat, f"pm-niter={'default' if dflt else niter}"]}
+
+    def _ptopt(self, c):
+        from nipy.labs.group import permutation_test as pt
+        n, p, stat, base, axis, niter = c["n"], c["p"], c["stat"], c["base"], c["axis"], c["niter"]
+        rs = np.random.RandomState(c["seed"])
+        data = rs.randint(-8, 9, size=(n, p)) / 2.0 + c["shift"]
+        var = rs.choice([0.25, 0.5, 1.0, 2.0], size=(n, p))
+        XYZ = np.vstack([np.arange(p), np.zeros(p, int), np.zeros(p, int)])
+        np.random.seed(c["seed"])
+        fail = None
+        tr = (lambda a: a.copy()) if axis == 0 else (lambda a: np.ascontiguousarray(a.T))
+        if stat == "student_mfx":
+            base = 0.0    # the installed extension predates the baseline fix of the likelihood-ratio statistics
+        if not c["two"]:
+            kw = dict(stat_id=stat, base=base, ndraws=c["ndraws"], axis=axis)
+            if c["mfx"]:
+                kw.update(vardata=tr(var), niter=niter)
+            P = pt.permutation_test_onesample(tr(data), XYZ, **kw)
+            nmax = 1 << n
+
+            def one(col, vcol, m):
+                x = np.array(flip(col, m))
+                return c_osmfx(stat, x, np.array(vcol), base, niter) if c["mfx"] else c_os(stat, x, base)
+            if n == 2 and stat in ("median", "laplace"):
+                return {"lines": [], "impl": [], "oracle": None, "nontrivial": False, "tags": ["ptopt", "skipped"]}
+            allT = [[one(data[:, j].tolist(), var[:, j].tolist(), m) for m in range(nmax)] for j in range(p)]
+        else:
+            n2 = c["n2"]
+            data2 = rs.randint(-8, 9, size=(n2, p)) / 2.0
+            var2 = rs.choice([0.25, 0.5, 1.0, 2.0], size=(n2, p))
+            st = "student_mfx" if c["mfx"] else ("student" if stat in ("student", "mean", "median", "laplace") else "wilcoxon")
+            kw = dict(stat_id=st, ndraws=c["ndraws"], axis=axis)
+            if c["mfx"]:
+                kw.update(vardata1=tr(var), vardata2=tr(var2), niter=niter)
+            P = pt.permutation_test_twosample(tr(data), tr(data2), XYZ, **kw)
+            nmax = math.comb(n + n2, n)
+            allT = []
+            for j in range(p):
+                ts = []
+                for m in range(nmax):
+                    if c["mfx"]:
+                        px, pv = c_tsapply(data[:, j], data2[:, j], m, var[:, j], var2[:, j])
+                        ts.append(c_tsmfx(px, pv, n, niter))
+                    else:
+                        px, _ = c_tsapply(data[:, j], data2[:, j], m)
+                        ts.append(c_ts(st, px, n))
+                allT.append(ts)
+        T = np.atleast_1d(P.Tvalues)
+        tag_stat = "mfx" if c["mfx"] else "rfx"
+        usable = all(np.all(np.isfinite(ts)) for ts in allT) and np.all(np.isfinite(T))
+        for j in range(p):
+            if usable and not _same(T[j], allT[j][0], 1e-7):
+                fail = (f"permutation_test(axis={axis}, base={base}, stat={stat}, niter={niter}).Tvalues[{j}] = {T[j]} but the "
+                        f"statistic of voxel {j} is {allT[j][0]}")
+                break
+        pv = np.atleast_1d(P.pvalue())
+        if fail is None and (np.any(~(pv > 0)) or np.any(pv > 1)):
+            fail = f"pvalue() = {pv.tolist()} not in (0, 1] (axis={axis}, stat={stat})"
+        if fail is None and usable:
+            clusters = [(float(np.median(T)), None)] if c["clusters"] else None
+            regions = [np.array([0] * (p // 2) + [1] * (p - p // 2))] if c["clusters"] else None
+            try:
+                vox, cl, rg = P.calibrate(nperms=c["nperms"], clusters=clusters, regions=regions)
+            except Exception as e:   # noqa
+                vox = None
+                fail = (f"calibrate(nperms={c['nperms']}, clusters={clusters}, regions={'given' if regions else None}) "
+                        f"raised {type(e).__name__}: {e} (axis={axis}, stat={stat})")
+            if vox is not None:
+                pvals = np.atleast_1d(vox["p_values"]); cp = np.atleast_1d(vox["Corr_p_values"])
+                exhaustive = c["nperms"] is None or c["nperms"] >= nmax
+                for j in range(p):
+                    if not (0 < pvals[j] <= 1) or not (0 < cp[j] <= 1):
+                        fail = (f"calibrate(nperms={c['nperms']}, axis={axis}, stat={stat}, base={base}): p_values[{j}]={pvals[j]}, "
+                                f"Corr_p_values[{j}]={cp[j]} not in (0, 1]")
+                        break
+                    if exhaustive:
+                        lo = sum(1 for v in allT[j] if v >= T[j] + 1e-7) / float(nmax)
+                        hi = sum(1 for v in allT[j] if v >= T[j] - 1e-7) / float(nmax)
+                        if not (lo - 1e-9 <= pvals[j] <= hi + 1e-9):
+                            fail = (f"calibrate exhaustive (axis={axis}, stat={stat}, base={base}, niter={niter}): p_values[{j}]="
+                                    f"{pvals[j]} but enumerating the {nmax} relabellings once gives {hi}")
+                            break
+                if fail is None and c["clusters"]:
+                    for res in list(cl) + list(rg):
+                        for key, val in res.items():
+                            if key.endswith("p_values"):
+                                val = np.atleast_1d(val)
+                                if val.size and (np.any(~(val > 0)) or np.any(val > 1)):
+                                    fail = (f"calibrate(nperms={c['nperms']}, clusters={clusters}, regions given): {key} = "
+                                            f"{val.tolist()} not in (0, 1]")
+                                    break
+                        if fail:
+                            break
+        return {"lines": [], "impl": [], "oracle": fail, "nontrivial": True,
+                "tags": ["ptopt", "po-" + tag_stat, f"po-axis={axis}", "po-two" if c["two"] else "po-one",
+                         "po-clusters" if c["clusters"] else "po-voxels"]}
 
     # ------------------------------------------------------------------
     def compare(self, case, impl_obs, model_out):
